@@ -196,7 +196,7 @@ def step (σ : St) (line : String) : St × String :=
     | none => (σ, "no-such-phase")
   | ["phase", name] =>
     match advance name σ.rest σ.env with
-    | some (e, a, rest) =>
+    | some (e, a, _, _, rest) =>
       let e' := if name = "self.interpreter.tick" then
           match a with
           | some x => enterInterp interpTickStmts e (evalArg e 0 0 x)
